@@ -356,7 +356,10 @@ static std::string run_case(const Case &c, Info *info) {
     }
     bool diff_overlap = false;
     for (int a = 0; a < nout; a++) for (int b = a + 1; b < nout; b++) if (D[a] != D[b]) for (int r : D[a]) if (D[b].count(r)) diff_overlap = true;
-    info->nontrivial = diff_overlap && info->relays > 0;
+    // two outputs with different but overlapping destination sets on a collective topology (the shape that broke O2:
+    // since the repair such tasks fall back to the star predicate, so they have no relay any more), or two outputs that
+    // share their destination set and are forwarded through a relay
+    info->nontrivial = (diff_overlap && c.topo != 0) || (nout >= 2 && info->relays > 0);
     g_sends.clear();
     return err;
 }
